@@ -1,5 +1,5 @@
 """C08 - gaftools sort (see DESIGN.md section 5)."""
-from props.sort_common import run_mode
+from props.sort_common import run_mode, tlaps_order_lemmas
 
 
 def run(ctx):
@@ -10,4 +10,5 @@ def run(ctx):
         "(plain/BGZF input, plain/--bgzip output, --outind) plus seeded random longer files; TLC (Check_Sort) decides; "
         "non-trivial = file with >= 2 records"
     )
+    tlaps_order_lemmas(ctx)
     run_mode(ctx, "C08")
